@@ -2,7 +2,7 @@
 use re::math::rand::*;
 use re::math::{pt2, vec3, Point2, Vec3};
 
-use crate::util::*;
+use vharness::util::*;
 
 fn inv_shl(mut y: u64, k: u32) -> u64 {
     // inverse of x ^= x << k
@@ -297,7 +297,7 @@ pub fn run(t: &[&str]) -> String {
             let count: u64 = t[4].parse().unwrap();
             let d = Uniform(a..b);
             let mut h = FNV_INIT;
-            let (mut bad, mut first_bad, mut badinv) = (0u64, -1i64, 0u64);
+            let (mut bad, mut first_bad, mut badinv, mut at_end) = (0u64, -1i64, 0u64, 0u64);
             for m in m0..m0 + count {
                 let s = inv_step((m << 41) | 0x1_2345_6789);
                 let mut g = Xorshift64(s);
@@ -308,13 +308,20 @@ pub fn run(t: &[&str]) -> String {
                 h = fnv_step(h, v.to_bits());
                 if !(a <= v && v < b) {
                     bad += 1;
+                    if v == b {
+                        at_end += 1;
+                    }
                     if first_bad < 0 {
                         first_bad = m as i64;
                     }
                 }
             }
-            format!("{} {} {} {}", h64(h), bad, first_bad, badinv)
+            format!("{} {} {} {} {}", h64(h), bad, first_bad, badinv, at_end)
         }
         _ => panic!("unknown op"),
     }
+}
+
+fn main() {
+    vharness::harness_main(gen, run);
 }
